@@ -311,37 +311,44 @@ def affinity_rule(run, f, rid):
 
 # ---------------------------------------------------------------- C01: submit / dispatch / keep scheduling
 def submit_rule(run, f, rid):
-    run.rule(rid, "an accepted submission is queued, the consumer is woken, and the handle names the loop and id it was queued under", floor=4, template="T1/T3/T5")
-    b = need(run, rid, f, POOL + "::submit_task")
+    run.rule(rid, "an accepted submission is queued, the consumer is woken, and the handle names the loop and id it was queued under", floor=3, template="T1/T3/T5")
+    # submit_task as one unit, submit_raw_task spliced in (whether it still exists as a function or was inlined)
+    b = unit(run, rid, f, POOL + "::submit_task", force=(POOL + "::submit_raw_task",))
     if b is not None:
         cfg = Cfg(b)
         du = DefUse(b)
-        raw = find_calls(b, callee_is(POOL + "::submit_raw_task"))
+        pu = [(x, t) for (x, t) in find_calls(b, callee_is(OLQ + "::push")) if (field_chain(b, du, t["args"][0]) or [""])[-1] == "task_queue"]
+        no = find_calls(b, callee_ends("CondvarBlocker::notify"))
         oks = []
         for blk in b.blocks:
             for i, s in enumerate(blk["stmts"]):
                 if s["k"] == "assign" and s["lhs"]["l"] == 0 and s["rhs"]["k"] == "agg" and s["rhs"].get("variant") == "Ok":
                     oks.append((blk["id"], s, i))
-        ok = len(raw) == 1 and oks and all(cfg.dominates(raw[0][0], x) for (x, _s, _i) in oks)
-        # the id returned is the id of the task that was queued
-        if ok:
+        why = None
+        if len(pu) != 1 or not oks or not all(cfg.dominates(pu[0][0], x) for (x, _s, _i) in oks):
+            why = "submit_task can return Ok(id) without having queued that task (task_queue.push must dominate every Ok)"
+        else:
+            # the id returned is the id of the task that was queued
             ids = find_calls(b, callee_is("co_pool::task::Task::id"))
             tnew = find_calls(b, callee_is("co_pool::task::Task::new"))
-            okid = len(ids) == 1 and len(tnew) == 1
+            okid = len(ids) >= 1 and len(tnew) == 1
             if okid:
-                s1 = backward(b, ids[0][1]["args"][0], du, at=(ids[0][0], "term"), through_calls="none")
-                s2 = backward(b, raw[0][1]["args"][1], du, at=(raw[0][0], "term"), through_calls="none")
-                okid = any(x == tnew[0][0] for (x, _t) in s1.calls) and any(x == tnew[0][0] for (x, _t) in s2.calls)
+                s2 = backward(b, pu[0][1]["args"][1], du, at=(pu[0][0], "term"), through_calls="none")
+                okid = any(x == tnew[0][0] for (x, _t) in s2.calls)
                 for (x, s, i) in oks:
                     s3 = backward(b, s["rhs"]["ops"][0], du, at=(x, i), through_calls="none")
-                    okid = okid and any(y == ids[0][0] for (y, _t) in s3.calls)
-            ok = okid
-        if ok:
-            run.ok(rid, "submit_task/queued", "Ok(id) only after submit_raw_task(task); id = task.id() of the queued task")
+                    idc = [(y, t) for (y, t) in s3.calls if norm(t.get("callee") or "") == "co_pool::task::Task::id"]
+                    okid = okid and bool(idc) and all(any(z == tnew[0][0] for (z, _t) in backward(b, t["args"][0], du, at=(y, "term"), through_calls="none").calls) for (y, t) in idc)
+            if not okid:
+                why = "the id returned by submit_task is not the id of the task that was queued"
+            elif not no or not cfg.dominates(pu[0][0], no[0][0]) or not cfg.must_pass(cfg.after(pu[0][0]), [x for (x, _t) in no])[0]:
+                why = "the consumer is not woken (blocker.notify) after the task was queued"
+        if why:
+            run.fail(rid, "submit_task/queued", b.loc(), why)
         else:
-            run.fail(rid, "submit_task/queued", b.loc(), "submit_task can return Ok(id) without having queued that task (submit_raw_task must dominate every Ok, and the id must be the queued task's id)")
-    b = need(run, rid, f, POOL + "::submit_raw_task")
-    if b is not None:
+            run.ok(rid, "submit_task/queued", "Ok(id) only after task_queue.push(task) and blocker.notify(); id = task.id() of the queued task")
+    if f.body(POOL + "::submit_raw_task") is not None:
+        b = need(run, rid, f, POOL + "::submit_raw_task")
         cfg = Cfg(b)
         du = DefUse(b)
         pu = [x for (x, t) in find_calls(b, callee_is(OLQ + "::push")) if (field_chain(b, du, t["args"][0]) or [""])[-1] == "task_queue"]
@@ -739,12 +746,12 @@ def pool_state_rule(run, f, rid):
         else:
             run.fail(rid, "change_state/guard", b.loc(), why or "no guarded replace found")
     # submit rejects unless Running
-    b = need(run, rid, f, POOL + "::submit_task")
+    b = unit(run, rid, f, POOL + "::submit_task", force=(POOL + "::submit_raw_task",))
     if b is not None:
         cfg = Cfg(b)
         du = DefUse(b)
         st = find_calls(b, callee_is(POOL + "::state"))
-        raw = find_calls(b, callee_is(POOL + "::submit_raw_task"))
+        raw = [(x, t) for (x, t) in find_calls(b, callee_is(OLQ + "::push")) if (field_chain(b, du, t["args"][0]) or [""])[-1] == "task_queue"]
         ok = False
         if st and raw:
             va = variant_arms(b, cfg, du, st[0][1]["dest"]["l"], cfg.after(st[0][0]))
